@@ -26,8 +26,8 @@ CLAIMS.update({
                 note=REASM_NOTE, technique="Coq invariant proof (sortedness inside a window) + correspondence", design="6 C02"),
     "C03": dict(text="Proof: Theorem C03_lost_exact: for every history the EventsLost reports equal, call by call, the sequence numbers skipped between in-order deliveries (serial-number arithmetic), one positive report per call, nothing for late/duplicate events. Proved of the repaired arithmetic (fix commit 38ca415); the checker is also evaluated on the implementation's trace.",
                 note=REASM_NOTE, technique="Coq proof over all histories + correspondence", design="6 C03"),
-    "C10": dict(text="Proof (bound): Theorem C10_bound_any_history: after every Push at most maxInFlight distinct sequences are undelivered, for every history. Partial for the cause / oldest-not-complete clauses: these are decided on every implementation trace by the observation-level checker (walk in Check/ChkReasm.v) and by model agreement; their theorem over all histories is not yet proved.",
-                note=REASM_NOTE + " PARTIAL: eviction-cause and oldest-not-complete clauses are checked on traces, not yet proved for all histories.", technique="Coq proof (bound) + trace checker + correspondence", design="6 C10"),
+    "C10": dict(text="Proof: C10_bound_any_history (after every Push at most maxInFlight distinct sequences are undelivered, every history), C10_evicted_only_for_cause (every delivery CleanUp makes outside Close is of an event that is complete, or found more than maxInFlight buffered, or whose timeout had elapsed - every buffer, configuration, clock reading), C10_head_not_complete, C10_log_is_the_deliveries. The cause and oldest clauses are stated on the model's state; on observed traces they are decided by the trace walker (Check/ChkReasm.v) and by model agreement.",
+                note=REASM_NOTE + " PARTIAL: the link between the state-level cause theorems and the trace walker's reconstruction (open times, completeness from observables) is not proved; it is exercised by the correspondence.", technique="Coq proof (bound) + trace checker + correspondence", design="6 C10"),
     "C11": dict(text="Proof (partial): Theorem C11_all_schedules_partial: in the small-step concurrent model (any threads, programs, re-entrant callbacks) every schedule delivers each put message at most once and at most one Close wins. The tie to the code is the verif yield hook: the harness forces schedules step by step and the model run on the same schedule must give the same callbacks and returns; unscheduled stress runs, close storms and a race-detector run support the runtime part.",
                 note=REASM_NOTE + " PARTIAL: data-race freedom, deadlock freedom and the behaviour of sync.Mutex/atomic are runtime facts (forced schedules with a 2 s deadlock deadline, stress runs and go -race support them); the exactly-once-after-all-returned clause is checked on traces, not yet proved.",
                 technique="Coq proof over all schedules of a small-step model + forced-schedule correspondence via build-tag hook + race detector", design="6 C11"),
@@ -37,16 +37,16 @@ CLIENT_NOTE = ("Trusted: Coq kernel + VM; the hand-written model Model/AuditClie
                "results, requests on the wire, socket closes and the number of receives consumed must equal the model's); Spec/Uapi.v (UAPI numbers and struct audit_status layout, hand-written); translator for constants/offsets. No axioms.")
 CLAIMS.update({
     "C08": dict(text="Proof: for every client state and every kernel script in the property's fault model (predicate answers: unbounded noise of unsolicited records and runs of up to nine transient failures, then the ACK), the Set* commands in WaitForReply mode, AddRule, DeleteRule and GetStatus return nil / the status exactly when errno = 0 and otherwise an error carrying that errno; a foreign sequence number is never success. "
-                     "Partial: GetRules/DeleteRules verdicts are decided on every implementation run by the independent script reading of Check/ChkClient.v and by model agreement, not yet proved.",
-                note=CLIENT_NOTE + " PARTIAL: GetRules / DeleteRules lack a theorem (checked on traces).", technique="Coq proofs over all scripts in the fault model + simulated-kernel correspondence", design="6 C08"),
+                     "GetRules returns exactly the rule payloads sent for the request (C08_get_rules_verdict). Partial: DeleteRules (GetRules followed by one DeleteRule per rule) is decided on every implementation run by the independent script reading of Check/ChkClient.v and by model agreement.",
+                note=CLIENT_NOTE + " PARTIAL: DeleteRules lacks a composed theorem (checked on traces).", technique="Coq proofs over all scripts in the fault model + simulated-kernel correspondence", design="6 C08"),
     "C16": dict(text="Proof: C16_setters (every setter x every value x both modes x every state: one AUDIT_SET, REQUEST|ACK, full-size UAPI struct with exactly the mask bit and value), C16_from_wire (every buffer: EOF below 32 bytes, else the eleven UAPI words with zero fill, trailing bytes ignored), C16_layout and C16_constants over generated offsets/constants. "
                      "The failure-mode constants are a known finding (all 0), stated as a two-way disjunction so that a third value fails.",
                 note=CLIENT_NOTE, technique="Coq proofs over generated layout/constants against a hand-written UAPI spec + correspondence", design="6 C16"),
     "C17": dict(text="Proof: C17_close_at_most_once for every operation sequence, kernel script and fault script; C17_first_close (PID cleared iff SetPID was used, before the socket close); C17_wait_consumes_once_in_order (acknowledged pending requests are consumed once, in order; a second call consumes nothing). "
                      "Partial: the first-error clause and the copy of rule data are decided on every implementation run (rules are read back after later traffic reused the receive buffer); concurrent Close is a runtime fact supported by close storms.",
                 note=CLIENT_NOTE + " PARTIAL: sync.Once under real concurrency is runtime; first-kernel-error clause checked on traces.", technique="Coq invariant proofs over all operation sequences + simulated-kernel correspondence", design="6 C17"),
-    "C19": dict(text="Proof (partial): C19_closed_is_final (after any Close, Maintain and Close return the error and deliver nothing, for all histories), C19_first_close_succeeds, and flush-on-Close via chk_C01. The timeout clauses (stale event delivered by the first call after its timeout once oldest; never earlier on account of time) are decided on every implementation trace with real sleeps by the observation-level checker and by model agreement; their theorem is not yet proved.",
-                note=REASM_NOTE + " PARTIAL: timeout clauses checked on traces with real time (30 ms timeouts, 70 ms sleeps), not yet proved; time.Now() is bracketed by stamps.", technique="Coq proofs (Close) + trace checker with real sleeps + correspondence", design="6 C19"),
+    "C19": dict(text="Proof: C19_head_not_stale (what CleanUp leaves at the head is not expired: a stale event goes in the first call whose clock reading is past its expiry once it is the oldest), C19_no_early_timeout (an incomplete event within the bound is evicted only at a reading past its expiry), C19_expiry_fixed_at_open (expiry = reading of the opening Put + timeout, never refreshed), for every timeout and clock reading; C19_closed_is_final, C19_first_close_succeeds, flush-on-Close via chk_C01. On observed traces the timeout clauses are decided with real sleeps by the trace walker and by model agreement.",
+                note=REASM_NOTE + " PARTIAL: that time.Now() advances as the model's clock input is a runtime fact (30 ms timeouts, 70 ms real sleeps, stamps around every call; undecided comparisons discarded).", technique="Coq proofs (Close) + trace checker with real sleeps + correspondence", design="6 C19"),
 })
 
 CLAIMS["C18"] = dict(
@@ -59,7 +59,7 @@ CLAIMS["C18"] = dict(
 RULE_NOTE = ("Trusted: Coq kernel + VM; hand-written models Model/RuleEncode.v, RuleDecode.v, Mask.v, Flags.v, FilterRe.v (tied to rule/ by the correspondence: generated rules go through the real flags.Parse, rule.Build and rule.ToCommandLine and the model must agree); "
              "Spec/UapiRule.v (UAPI numbers by name and the fixed-offset reader of struct audit_rule_data, hand-written, cross-checked against /usr/include/linux/audit.h while writing); the generator as oracle for text spellings of numbers; os.Stat/GOARCH/user database as oracles. No axioms.")
 CLAIMS.update({
-    "C06": dict(text="Proof: C06_wire_exact (for every well-formed rule data the fixed-offset UAPI reader recovers list, action, count, mask, the triples in order with zero fill, buflen and the strings back to back), C06_tables_are_uapi and C06_layout (generated tables/offsets equal the UAPI constants by name), C06_mask_exact / C06_mask_range (exactly the requested bits). "
+    "C06": dict(text="Proof: C06_wire_exact (for every well-formed rule data the fixed-offset UAPI reader recovers list, action, count, mask, the triples in order with zero fill, buflen and the strings back to back), C06_accepted_rules_are_well_formed / C06_accepted_rules_decode (every rule the Build model accepts yields such data, so this holds for the bytes of every accepted rule), C06_tables_are_uapi and C06_layout (generated tables/offsets equal the UAPI constants by name), C06_mask_exact / C06_mask_range (exactly the requested bits). "
                      "The independent checker chk_C06 decodes the bytes of the real Build for every generated rule and compares them with what the rule asks for in UAPI numbers.",
                 note=RULE_NOTE + " PARTIAL: addFilter's per-field value parsers (strconv spellings, errno and message type names) are exercised by correspondence, not proved.", technique="Coq proof of the wire codec against a UAPI reader + generated-table obligations + correspondence", design="6 C06"),
     "C07": dict(text="Partial proof: C07_wire_roundtrip_partial (decode of encode is the identity on header and string buffer, all well-formed rule data). The text layer (ToCommandLine, flags.Parse) is not modelled: the full chain bytes -> text -> Parse -> Build -> bytes -> text is run on the implementation for every generated in-domain rule and must reproduce bytes and text exactly. Seven defects of the pinned tree in this chain were repaired (fix commits).",
